@@ -489,8 +489,9 @@ func runC12(e *Env) {
 			cmd := exec.CommandContext(ctx, sbin, fmt.Sprint(t.bound), "20000000", t.text)
 			cmd.Env = append(os.Environ(), "GOMAXPROCS=2")
 			out, err := cmd.Output()
+			timedOut := ctx.Err() == context.DeadlineExceeded
 			cancel()
-			if ctx.Err() != nil {
+			if timedOut {
 				errs[i] = "explorer stopped after 20 minutes (no verdict for this tree)"
 				return
 			}
